@@ -82,7 +82,9 @@ Fixpoint check_globals (ns : list name) (gs : list bytes) (st : state) : nat :=
 (* 0 agree
    1 marker trace differs                      2 error / no error differs
    3 unspecified by the reference semantics    4 fuel
-   5 panic where the Spec has an error (C06)   6 panic where the Spec has a result
+   5 panic where the Spec has an error         6 panic where the Spec has a result
+     (both are violations: since the repairs of C06 every index / position outside a list is an
+      error; the only open crash, printing a cyclic container, is never generated)
    7 a global variable differs                 8 a probe value differs
    9 malformed case *)
 Definition verdict_prog (prog : list stmt) (probes : list expr) (names : list name)
